@@ -140,6 +140,10 @@ func init() {
 						dirlink := filepath.Join(w.Dir, "dirlink")
 						os.Remove(dirlink)
 						os.Symlink(abs, dirlink)
+						comma := filepath.Join(w.Dir, "build,linux-amd64 (copy)")
+						os.Remove(comma)
+						os.Symlink(abs, comma)
+						forms["path with a comma, a space and parentheses"] = []string{"-i", filepath.Join(comma, "gontainer.yaml"), "-i", filepath.Join(comma, "gontainer_*.yaml")}
 						forms["absolute paths"] = []string{"-i", filepath.Join(abs, "gontainer.yaml"), "-i", filepath.Join(abs, "gontainer_*.yaml")}
 						forms["files are symbolic links"] = []string{"-i", filepath.Join(links, "gontainer.yaml"), "-i", filepath.Join(links, "gontainer_*.yaml")}
 						forms["directory is a symbolic link"] = []string{"-i", filepath.Join(dirlink, "gontainer.yaml"), "-i", filepath.Join(dirlink, "gontainer_*.yaml")}
